@@ -93,6 +93,7 @@ fn run(rng: &mut Rng, idx: u64, tier: Tier) -> CaseOut {
         }
     }
     let ctx = lib_context(&world, &sys, &sets);
+    let net_names = world.net.names.clone();
     // compose rewrites
     let mut g = f.clone();
     let mut kinds = Vec::new();
@@ -102,7 +103,10 @@ fn run(rng: &mut Rng, idx: u64, tier: Tier) -> CaseOut {
         n
     };
     if !names.is_empty() && rng.chance(2, 3) {
+        // (state variables and propositions live in different name spaces: a state variable may be called like a
+        // network variable that the formula also uses as a proposition)
         let mut pool: Vec<String> = ["x", "xx", "xxx", "xxxx", "y", "z", "v_1", "EX", "3"].iter().map(|s| s.to_string()).collect();
+        pool.extend(net_names.iter().cloned());
         rng.shuffle(&mut pool);
         let map: HashMap<String, String> = names.iter().cloned().zip(pool.into_iter()).collect();
         g = g.rename_vars(&|v| map.get(v).cloned().unwrap_or_else(|| v.to_string()));
